@@ -87,13 +87,16 @@ type asyncEvent struct {
 
 // asyncLog is the harness-side event log of one asynchronous call (own mutex; the monitor's state is not the race).
 type asyncLog struct {
+	// the 64-bit counters come first: on 32-bit platforms only the first word of an allocated struct is guaranteed to be
+	// aligned for the atomic operations (the harness's own "unaligned 64-bit atomic operation" was the reason why C15 had
+	// no 386 pass until round 15)
+	nEnded  int64
+	active  int64
+	maxAct  int64
 	mu      sync.Mutex
 	events  []asyncEvent
 	started []int32
 	ended   []int32
-	nEnded  int64
-	active  int64
-	maxAct  int64
 	wrong   []string
 }
 
